@@ -8,7 +8,13 @@ Init == l \in 1..(IF Len(Trace) < Stride THEN Len(Trace) ELSE Stride)
 Next == l + Stride <= Len(Trace) /\ l' = l + Stride
 R == Trace[l]
 Ref == Outcome(R.fail, R.t0, R.script)
-RecordOK == /\ R.res = Ref.res
+\* a slow extension callback (see runSlowCallback): giving up before the second pre-response is taken, or going
+\* on with it, are both runs of the loop; a timeout AFTER the second extension was reported is not
+SlowCallbackOK == /\ R.res \in {"timeout", "result"}
+                  /\ (R.res = "timeout" => Len(R.ext) = 1)
+                  /\ (R.res = "result" => Len(R.ext) = 2 /\ R.ext[2] = 2000)
+RecordOK == IF R.judge = "slowcb" THEN SlowCallbackOK ELSE
+            /\ R.res = Ref.res
             /\ R.ext = Ref.ext
             /\ R.released                      \* the inbox subscription was released when SendRequest returned
             /\ (R.fail # "" => R.fast)         \* failures are reported without waiting
